@@ -33,6 +33,10 @@ func ZZNoInfraError(shape int) {
 		req.Puts = append(req.Puts, &proto.PutRequest{Key: "", Value: nil})
 		req.Deletes = append(req.Deletes, &proto.DeleteRequest{Key: "q", ExpectedVersionId: &exp})
 		req.Deletes = append(req.Deletes, &proto.DeleteRequest{Key: "missing"})
+		// conditional operations on keys that do not exist, with ANY expected version a client can send (also below -1)
+		exp2 := vInt64("expected-on-absent")
+		req.Puts = append(req.Puts, &proto.PutRequest{Key: "absent-put", Value: []byte("v"), ExpectedVersionId: &exp2})
+		req.Deletes = append(req.Deletes, &proto.DeleteRequest{Key: "absent-delete", ExpectedVersionId: &exp2})
 		req.DeleteRanges = append(req.DeleteRanges, &proto.DeleteRangeRequest{StartInclusive: "q", EndExclusive: "o"})
 		req.DeleteRanges = append(req.DeleteRanges, &proto.DeleteRangeRequest{StartInclusive: "", EndExclusive: ""})
 	case 1: // sequence put without a partition key
